@@ -2097,6 +2097,12 @@ func (ctx Ctx) funcDecl(d *ast.FuncDecl) coq.FuncDecl {
 	}
 
 	fd.Args = append(fd.Args, ctx.paramList(d.Type.Params)...)
+	for _, arg := range fd.Args {
+		// rec: "f" "f" binds the name to the function, not to the argument
+		if arg.Name == fd.Name {
+			ctx.unsupported(d.Name, "parameter with the name of its function")
+		}
+	}
 	fd.ReturnType = ctx.returnType(d.Type.Results)
 	fd.Body = ctx.blockStmt(d.Body, ExprValReturned)
 	ctx.dep.addName(fd.Name)
